@@ -73,6 +73,9 @@ def _vindex(x, *indexes):
             ind = np.array(ind, copy=True)
             if ind.dtype.kind == "b":
                 raise IndexError("vindex does not support indexing with boolean arrays")
+            if ind.dtype.kind in "iu" and ind.dtype.itemsize < np.dtype(np.intp).itemsize:
+                # the axis length may not fit the index dtype (uint8 on >= 256 elements)
+                ind = ind.astype(np.intp)
             if ((ind >= size) | (ind < -size)).any():
                 raise IndexError(
                     f"vindex key has entries out of bounds for indexing along axis {i} of size {size}: {ind!r}"
